@@ -63,7 +63,15 @@ OPTION_SETS = [
     ["--inspect-raw-lines", "false"], ["--grep-output-type", "classic"], ["--blame-format", "{commit}{author:>0}{timestamp:^1}"],
     ["--blame-palette", "red"], ["--true-color", "never", "--syntax-theme", "none"], ["--wrap-max-lines", "unlimited", "--side-by-side", "--width", "14"],
     ["--merge-conflict-begin-symbol", "", "--merge-conflict-end-symbol", ""], ["--paging", "never", "--width", "variable"],
+    ["--plus-style", "raw", "--minus-style", "raw", "--zero-style", "raw"], ["--plus-style", "raw", "--side-by-side", "--width", "30"],
+    # (a width that is no usable number: to be refused, not accepted and then stumbled over)
+    ["--line-numbers", "--line-numbers-left-format", "{nm:^99999999999999999999999}"],
 ]
+# hunk lines of a combined diff whose prefix columns hold something else than "+", "-", " ": a multi-byte character, a tab,
+# an escape sequence in the middle - plain and in colours git does not use for added / removed lines (delta then keeps the
+# line as it came)
+CC_PREFIX_LINES = [b"+\xc3\xa9x", b" \xc3\xa9y", b"-\xe4\xb8\x96z", b"+\tfoo", b"\t+bar", b"\t\tbaz", b"\x1b[1;35m+\tfoo\x1b[m", b"\x1b[1;36m+\xc3\xa9x\x1b[m",
+                   b"\x1b[2m \x1b[m\x1b[2m\xc3\xa9\x1b[m", b"+\x1b[31m+x\x1b[m", b"\xc3\xa9", b"+", b"\xcc\x81+x", b"+\xcc\x81x"]
 
 
 def run(tier):
@@ -77,6 +85,10 @@ def run(tier):
         r = core.run_delta(["--no-gitconfig"] + o, b"", allow_usage_error=True, timeout=10)
         if r.code == 0:
             accepted.append(o)
+        elif r.timed_out or b"panicked" in r.err or r.code not in (1, 2):
+            # an option value is either refused (message, exit 2) or works: a panic while the options are read is a crash
+            V.violation(f"options-panic:{' '.join(o)}", f"delta crashed while reading the options {' '.join(o)}: exit {r.code} {r.err[:200]!r}",
+                        {"run": r.to_json()})
     cov, covstats = stream.cover_histories(pairs=False)
     base = rnd.sample(cov, min(len(cov), 250 if tier == "quick" else 3000))
     # (combined diffs with conflict regions, plain diff -u streams and submodule sections as well)
@@ -97,6 +109,14 @@ def run(tier):
     for i, hline in enumerate(HOSTILE):
         for o in (accepted if tier == "thorough" else rnd.sample(accepted, 10)):
             jobs.append(("hostile-alone", hline + b"\n" + hline + b"\n x\n", o, f"hostile[{i}] alone"))
+    # lines with odd prefix columns inside a hunk of a combined diff (two and three parents), each under every accepted option set
+    for i, pl in enumerate(CC_PREFIX_LINES):
+        for np_ in (2, 3):
+            at = b"@" * (np_ + 1)
+            hdr = b"diff --cc f.rs\nindex 1,2..3\n--- a/f.rs\n+++ b/f.rs\n" + at + b" " + b"-1,2 " * np_ + b"+1,3 " + at + b"\n"
+            body = b" " * np_ + b"ctx\n" + pl + b"\n" + b"+" * np_ + b"added\n" + pl + b"\n"
+            for o in (accepted if tier == "thorough" else rnd.sample(accepted, 12) + [x for x in accepted if "raw" in x and "--plus-style" in x]):
+                jobs.append(("cc-prefix", hdr + body, o, f"cc-prefix[{i}] {np_} parents"))
     # (b) well-formed model histories under every accepted option set
     for h in base[:120 if tier == "quick" else 1500]:
         data, texts = gitskin.concretise(h, payload=lambda k, c: ("x" * (k * 7 % 60)) + " 世界\t́e")
